@@ -112,6 +112,7 @@ def _case(draw):
         case['value'] = value
         case['break'] = brk
         case['prefix'] = draw(st.integers(0, 3))
+    case['fnode'] = draw(st.sampled_from([None] * 9 + ['same-names', 'nested', 'new-name']))
     return case
 
 
@@ -193,7 +194,37 @@ def all_paths(p, pre=()):
     return out
 
 
+def _function_node_override(case):
+    """A function node replaced, below !notnew, by a function node with another target: the old arguments go, and the paths of the new
+    ones exist iff the old node had arguments of those names (a command-line override 'model=!call:other {depth: 50}')."""
+    import vfrec
+    from awesomeyaml import Config
+    variant = case['fnode']
+    base = '---\nfn: !call:vfrec.call_1 {x: 1, y: {d: 2}}\nzz: 0\n'
+    new_args, exists = {'same-names': ('{x: 9}', True), 'nested': ('{y: {d: 7}}', True), 'new-name': ('{w: 9}', False)}[variant]
+    value = f'!call:vfrec.call_2 {new_args}'
+    for how in ('cmdline', 'document'):
+        vfrec.reset()
+        if how == 'cmdline':
+            status, got = O.try_call(lambda: Config.build_from_cmdline(base, f'fn={value}'))
+        else:
+            status, got = O.try_call(O.build_config, [base, f'--- !notnew\nfn: {value}\n'])
+        src = f'\nbase:\n{base}\noverride ({how}): fn={value}'
+        if exists:
+            want = {'x': 9} if variant == 'same-names' else {'y': {'d': 7}}
+            if status != 'ok':
+                raise Violation(f'C08: every path the override writes exists, yet the build failed: {type(got).__name__}: {str(got)[:300]}{src}')
+            f = O.to_builtin(got).get('fn')
+            if not isinstance(f, dict) or f.get('called') != 2 or O.canon_unordered(f.get('kw')) != O.canon_unordered(want) or O.to_builtin(got).get('zz') != 0:
+                raise Violation(f'C08: expected fn = call_2(**{want}) and nothing else changed, got {O.to_builtin(got)!r}{src}')
+        else:
+            if status == 'ok' or type(got).__name__ != 'MergeError':
+                raise Violation(f'C08: the override writes fn.w, which does not exist: expected a MergeError, got {got!r}{src}')
+
+
 def run_case(case):
+    if case.get('fnode'):
+        _function_node_override(case)
     stages = case['stages']
     texts = [tdoc.render(s) for s in stages]
     plains = [yaml.safe_load(t) for t in texts]
